@@ -127,29 +127,30 @@ deriving DecidableEq, Repr
 def Fwd.seekTo {α : Type} (st : Fwd α) (row : Nat) : Option (Fwd α) :=
   if row ≥ st.index then some { st with seek := row } else none
 
-/-- row.go:256-276 AS IT IS.
-    * `index` advances only while rows are being skipped, not on plain reads;
-    * when the seek target lies inside the batch (`skip < n`) the copy loop
-      `for i, j := 0, skip; j < n; i++` never advances `j`: `i` runs past the buffer and the call
-      panics (index out of range).
-    `fuel` bounds the outer `for` (batches skipped entirely). -/
+/-- row.go:256-276 BEFORE the repair c3e3444 (kept as a regression fact):
+    * `index` advanced only while rows were being skipped, not on plain reads;
+    * when the seek target lay inside the batch (`skip < n`) the copy loop
+      `for i, j := 0, skip; j < n; i++` never advanced `j`: `i` ran past the buffer and the call
+      panicked (index out of range). -/
+def Fwd.readBeforeFix {α : Type} (cap : Nat) : Nat → Fwd α → ReadOut α × Fwd α
+  | 0, st => (.rows [], st)
+  | fuel + 1, st =>
+    if 0 < (st.rest.take cap).length ∧ st.index < st.seek then
+      if st.seek - st.index ≥ (st.rest.take cap).length then
+        Fwd.readBeforeFix cap fuel { rest := st.rest.drop cap, seek := st.seek, index := st.index + (st.rest.take cap).length }
+      else (.panic, { rest := st.rest.drop cap, seek := st.seek, index := st.index + (st.rest.take cap).length })
+    else (.rows (st.rest.take cap), { st with rest := st.rest.drop cap })
+
+/-- row.go:256-281 AS IT IS (`forwardRowSeeker.ReadRows`): batches that lie entirely before the
+    seek target are skipped (`continue`), the batch holding it loses its first `skip` rows (`i`
+    and `j` advance together), and `index` counts every row handed out by the underlying
+    reader. `fuel` bounds the outer `for`. -/
 def Fwd.read {α : Type} (cap : Nat) : Nat → Fwd α → ReadOut α × Fwd α
   | 0, st => (.rows [], st)
   | fuel + 1, st =>
     if 0 < (st.rest.take cap).length ∧ st.index < st.seek then
       if st.seek - st.index ≥ (st.rest.take cap).length then
         Fwd.read cap fuel { rest := st.rest.drop cap, seek := st.seek, index := st.index + (st.rest.take cap).length }
-      else (.panic, { rest := st.rest.drop cap, seek := st.seek, index := st.index + (st.rest.take cap).length })
-    else (.rows (st.rest.take cap), { st with rest := st.rest.drop cap })
-
-/-- proposed repair: `j` advances with `i`, and `index` counts every row handed out by the
-    underlying reader -/
-def Fwd.readFixed {α : Type} (cap : Nat) : Nat → Fwd α → ReadOut α × Fwd α
-  | 0, st => (.rows [], st)
-  | fuel + 1, st =>
-    if 0 < (st.rest.take cap).length ∧ st.index < st.seek then
-      if st.seek - st.index ≥ (st.rest.take cap).length then
-        Fwd.readFixed cap fuel { rest := st.rest.drop cap, seek := st.seek, index := st.index + (st.rest.take cap).length }
       else (.rows ((st.rest.take cap).drop (st.seek - st.index)),
         { rest := st.rest.drop cap, seek := st.seek, index := st.index + (st.rest.take cap).length })
     else (.rows (st.rest.take cap), { rest := st.rest.drop cap, seek := st.seek, index := st.index + (st.rest.take cap).length })
@@ -168,5 +169,34 @@ def drain {α β : Type} (f : α → β) : List Nat → Fwd α → Option (List 
     match convRead f cap (st.rest.length + 1) st with
     | (.rows xs, st') => (drain f caps st').map (xs ++ ·)
     | (.panic, _) => none
+
+/-- a history of calls on the reader returned by `ConvertRowReader` -/
+inductive Op where
+  | read (cap : Nat)
+  | seek (row : Nat)
+deriving DecidableEq, Repr
+
+/-- what the reads of a history deliver (a refused `SeekToRow` leaves the state alone) -/
+def runHist {α : Type} : List Op → Fwd α → List (List α)
+  | [], _ => []
+  | .seek k :: ops, st =>
+    match st.seekTo k with
+    | some st' => runHist ops st'
+    | none => runHist ops st
+  | .read cap :: ops, st =>
+    match Fwd.read cap (st.rest.length + 1) st with
+    | (.rows xs, st') => xs :: runHist ops st'
+    | (.panic, st') => [] :: runHist ops st'
+
+/-- SPEC of a forward-seekable reader over the rows `all`, with `p` the position of the next row:
+    a read delivers rows `p, p+1, ...` (possibly fewer than asked for, none only at the end) and
+    moves `p` behind them; `SeekToRow k` with `k ≥ p` moves `p` to `k` (a backward seek puts no
+    obligation on the rest of the history). -/
+def Refines {α : Type} (all : List α) : Nat → List Op → List (List α) → Prop
+  | _, [], outs => outs = []
+  | p, .seek k :: ops, outs => k ≥ p → Refines all k ops outs
+  | p, .read _ :: ops, xs :: outs =>
+    xs = (all.drop p).take xs.length ∧ (xs = [] → all.drop p = []) ∧ Refines all (p + xs.length) ops outs
+  | _, .read _ :: _, [] => False
 
 end PqModel.Convert
